@@ -2,8 +2,10 @@ package main
 
 import (
 	"errors"
+	"fmt"
 	"os/exec"
 	"strconv"
+	"syscall"
 
 	ucfg "github.com/elastic/go-ucfg"
 
@@ -104,10 +106,18 @@ func vstubLoadFilter(f seccomp.Filter) error {
 		vLoadErr = err != nil
 		return err
 	}
-	if vChoice("load.fails", 2) == 1 {
+	switch vChoice("load.fails", 3) {
+	case 1:
 		vLoadErr = true
 		return errors.New("kernel refused")
+	case 2:
+		// a failure that carries an arbitrary errno (as the real LoadFilter wraps it)
+		vLoadErr = true
+		e := syscall.Errno(vU32("load.errno"))
+		vAssume(e != 0)
+		return fmt.Errorf("failed loading seccomp filter: %w", e)
 	}
+	vLoadErr = false
 	return nil
 }
 
@@ -165,7 +175,7 @@ func H_SandboxMain() {
 		vCover("cover.exec")
 		vAssert(vExecCalls == 1, "C15.one_exec")
 		vAssert(vParseAt > 0 && !vParseErr, "C15.exec_needs_parse")
-		vAssert(vLoadCalls == 1 && !vLoadErr, "C15.exec_needs_load")
+		vAssert(vLoadCalls >= 1 && !vLoadErr, "C15.exec_needs_load")
 		vAssert(vParseAt < vLoadAt && vLoadAt < vExecAt, "C15.order")
 		// the filter handed over is the parsed policy, thread-synced, with the flag's no_new_privs
 		pol := vParsed
